@@ -46,7 +46,13 @@ def run_digest(run_or_runs, responses):
     for r in runs:
         hist.append([list(map(_j, ev)) for ev in r.sim.history])
         hist.append(r.sim.switch_trace)
-    return digest(hist, [bytes(x) for x in responses])
+    d = digest(hist, [bytes(x) for x in responses])
+    dump = os.environ.get("VERIF_DUMP_HIST")
+    if dump:
+        os.makedirs(dump, exist_ok=True)
+        with open(os.path.join(dump, d + ".json"), "w") as f:
+            json.dump({"hist": hist, "resp": [_j(bytes(x)) for x in responses]}, f, indent=0)
+    return d
 
 
 def _j(x):
